@@ -30,7 +30,7 @@ class C15(Prop):
         "keys that are attribute names of list (append, index, ...) are not used for attribute access",
         "assignment of a HeaderItem to an integer key is not probed (the statement speaks of plain values)",
     ]
-    quick = {"runs": 6000, "wall": 40}
+    quick = {"runs": 60000, "wall": 60}
     thorough = {"runs": 400000, "wall": 900}
 
     def enumerated(self, tier):
